@@ -438,6 +438,13 @@ func forSpecials() []model.Stmt {
 		model.Each{Var: "v", Arr: callE(bvar, "append", lit(4)), Body: []model.Stmt{model.Print{E: vv}, model.Text{S: ":"}, model.Print{E: callE(callE(bvar, "append", model.Binary{Op: "*", L: vv, R: lit(10)}), "len")}, model.Text{S: " "}}}}}})
 	out = append(out, model.If{Conds: []model.Expr{lit(1)}, Bodies: [][]model.Stmt{{model.Assign{Name: "base", E: model.ArrLit{Elems: []model.Expr{model.StrLit{S: "a"}, model.StrLit{S: "b"}, model.StrLit{S: "c"}}}},
 		model.Each{Var: "v", Arr: bvar, Body: []model.Stmt{model.Print{E: vv}, model.Text{S: "="}, model.Print{E: callE(callE(callE(bvar, "slice", lit(0), loopField("iter")), "append", model.StrLit{S: "-"}), "join", model.StrLit{S: ""})}, model.Text{S: " "}}}}}})
+	// text glued to @break / @continue (never rendered, but it is text: anything that does not spell "If")
+	for _, t := range []string{"Ignored text", "I", "Is skipped", "if", "f", "IF", "(x)", "x"} {
+		out = append(out, model.Each{Var: "v", Arr: intArr(1, 2, 3), Body: []model.Stmt{model.Print{E: model.Var{Name: "v"}}, model.Break{}, model.Text{S: t}}})
+		out = append(out, model.Each{Var: "v", Arr: intArr(1, 2, 3), Body: []model.Stmt{model.Print{E: model.Var{Name: "v"}}, model.Continue{}, model.Text{S: t}}})
+		out = append(out, model.Each{Var: "v", Arr: intArr(1, 2, 3), Body: []model.Stmt{model.Print{E: model.Var{Name: "v"}},
+			model.If{Conds: []model.Expr{model.Binary{Op: "==", L: model.Var{Name: "v"}, R: lit(2)}}, Bodies: [][]model.Stmt{{model.Continue{}, model.Text{S: t}}}}, model.Text{S: "."}}})
+	}
 	// empty bodies, with and without @else
 	out = append(out, model.Each{Var: "v", Arr: intArr(1, 2), Body: []model.Stmt{}, Else: []model.Stmt{model.Text{S: " never"}}})
 	out = append(out, model.Each{Var: "v", Arr: model.ArrLit{}, Body: []model.Stmt{}, Else: []model.Stmt{model.Text{S: " empty"}}})
